@@ -295,6 +295,8 @@ func (env *Env) eval(e *Expr) EV {
 	switch e.Op {
 	case "int":
 		return EV{intLitStr(e.Int), SInt, nil}
+	case "real":
+		return EV{e.Int, SReal, types.Typ[types.Float64]}
 	case "str":
 		return EV{env.w.lits.Get(e.Str), SStr, types.Typ[types.String]}
 	case "bool":
@@ -630,6 +632,12 @@ func (env *Env) evalBin(e *Expr) EV {
 	}
 	switch op {
 	case "==", "!=":
+		if a.S == SSlice && e.Args[1].Op == "nil" {
+			a = EV{app("sarr", a.T), SInt, nil}
+		}
+		if b.S == SSlice && e.Args[0].Op == "nil" {
+			b = EV{app("sarr", b.T), SInt, nil}
+		}
 		if a.S != b.S {
 			efail("comparison of %s with %s", a.S, b.S)
 		}
@@ -928,6 +936,20 @@ func (env *Env) evalCall(e *Expr) EV {
 			efail("cost() in pure context")
 		}
 		return EV{env.st.Heap("$cost"), SInt, intT}
+	case "errIsRange":
+		argn(1)
+		x := env.eval(e.Args[0])
+		return EV{app("err_is_range", x.T), SBool, boolT}
+	case "isVE", "errType", "errFailure", "errUrl", "errDescr", "errCause":
+		argn(1)
+		x := env.eval(e.Args[0])
+		vt := env.w.typePkgs["errors"].Scope().Lookup("ValidationError").Type()
+		if name == "isVE" {
+			return EV{and(not(eq(x.T, "0")), eq(app("dyntype", x.T), strconv.Itoa(env.w.typeID(typeName(types.NewPointer(vt)))))), SBool, boolT}
+		}
+		fname := map[string]string{"errType": "errorType", "errFailure": "failure", "errUrl": "url", "errDescr": "descr", "errCause": "cause"}[name]
+		s, _ := structOf(vt)
+		return env.selectField(x.T, vt, s, fieldIndex(s, fname))
 	case "dyntype":
 		argn(1)
 		x := env.eval(e.Args[0])
